@@ -36,6 +36,22 @@ var presetsDoc = map[string]presetDoc{
 func (f cliFlags) args() []string {
 	if f.preset != "" {
 		a := []string{"-preset", f.preset}
+		// other configuration flags given together with a preset are documented to be ignored
+		if f.eight {
+			a = append(a, "-8")
+		}
+		if f.s != 0 {
+			a = append(a, "-s", fmt.Sprint(f.s))
+		}
+		if f.p != 0 {
+			a = append(a, "-p", fmt.Sprint(f.p))
+		}
+		if f.c != 0 {
+			a = append(a, "-c", fmt.Sprint(f.c))
+		}
+		if f.l != 0 {
+			a = append(a, "-l", fmt.Sprint(f.l))
+		}
 		if f.F != 0 {
 			a = append(a, "-F", fmt.Sprint(f.F))
 		}
@@ -255,6 +271,14 @@ func cmdCLI(args []string) {
 		for _, name := range []string{"nopnano", "nop256", "noptiny", "nop94", "88", "icws"} {
 			d := presetsDoc[name]
 			f := cliFlags{preset: name, r: 1 + r.Intn(2)}
+			switch r.Intn(4) { // flags that a preset overrides
+			case 0:
+				f.eight = true
+			case 1:
+				f.s, f.l = 64, 3
+			case 2:
+				f.p, f.c = 2, 5
+			}
 			cfg := f.progCfg()
 			// (a) a bomber whose secondary pointer reaches M-1 cells backwards (read/write limits matter), against a parked opponent at M-1
 			bomber := cfg
@@ -281,6 +305,16 @@ func cmdCLI(args []string) {
 				cd.Items = []item{insItem("DJN", "", "", 0, "#", n1), insItem("DJN", "", "", -1, "#", 2), insItem("DAT", "", "#", 0, "#", 0)}
 				f.F = d.m / 2
 				emit(f, []prog{cd, park(cfg)})
+			}
+			// (e) '94 presets given together with -8: the flag is documented to be ignored, so '94-only code still assembles
+			if d.dialect == 94 {
+				rs := cfg
+				rs.Items = []item{{T: "ins", Op: "NOP", Am: "}", A: []tok{num(0)}, Bm: ">", B: []tok{num(1)}, HasB: true},
+					{T: "ins", Op: "DAT", A: []tok{num(0)}, B: []tok{num(0)}, HasB: true}}
+				f2 := f
+				f2.eight = true
+				f2.F = d.m / 2
+				emit(f2, []prog{rs, park(cfg)})
 			}
 			// (d) imp against imp: a tie at the cycle limit on the small presets
 			if d.c <= 2560 || (*long && d.c <= 8000) {
